@@ -291,3 +291,38 @@ Proof.
             destruct (S2 (v - m')) as [q [Hq Hl]]; [lra|]. rewrite (Hc q Hq) in Hl. lra. }
         assert (X : Qeq_bool m m' = true) by (apply Qeq_eq_bool; lra). congruence.
 Qed.
+
+(* is_discrete (on polyhedra): the set has at most one point (on the first n coordinates) *)
+Definition is_some_b {A} (o : option A) : bool := match o with Some _ => true | None => false end.
+Definition q_is_discrete (n : nat) (s : sys) : option bool :=
+  match q_is_empty n s with
+  | Some true => Some true
+  | Some false => oall (fun i => option_map is_some_b (q_constant n (lvar i) s)) (seq 0 n)
+  | None => None
+  end.
+
+Theorem q_is_discrete_exact n s b :
+  q_is_discrete n s = Some b ->
+  (b = true <-> forall p q, sat_sys s p -> sat_sys s q -> forall i, (i < n)%nat -> p i == q i).
+Proof.
+  unfold q_is_discrete. destruct (q_is_empty n s) as [be|] eqn:EE; [|discriminate].
+  pose proof (q_is_empty_exact _ _ _ EE) as XE. destruct be.
+  - intros [= <-]. split; [|reflexivity]. intros _ p q Hp. exfalso. exact (proj1 XE eq_refl p Hp).
+  - intros H.
+    assert (NE : exists p0, sat_sys s p0).
+    { destruct (nonempty_sys n s) as [b0|] eqn:E0.
+      - unfold q_is_empty, onot in EE. rewrite E0 in EE. cbn in EE. injection EE as EE.
+        destruct b0; [|discriminate]. exact (proj1 (nonempty_sys_exact _ _ _ E0) eq_refl).
+      - unfold q_is_empty, onot in EE. rewrite E0 in EE. discriminate. }
+    assert (Hf : forall i bi, option_map is_some_b (q_constant n (lvar i) s) = Some bi ->
+                 (bi = true <-> forall p q, sat_sys s p -> sat_sys s q -> p i == q i)).
+    { intros i bi. destruct (q_constant n (lvar i) s) as [r|] eqn:EC; [|discriminate]. cbn. intros [= <-].
+      pose proof (q_constant_exact _ _ _ _ EC) as XC. destruct r as [v|]; cbn [is_some_b].
+      - split; [|reflexivity]. intros _ p q Hp Hq. destruct XC as [_ XC].
+        pose proof (XC p Hp) as A. pose proof (XC q Hq) as B. rewrite leval_lvar in A, B. lra.
+      - split; [discriminate|]. intros Hall. exfalso. destruct NE as [p0 Hp0].
+        apply (XC (p0 i)). split; [now exists p0|]. intros p Hp. rewrite leval_lvar. now apply Hall. }
+    rewrite (oall_spec _ _ _ _ Hf H). split.
+    + intros X p q Hp Hq i Hi. apply (X i); [apply in_seq; lia|exact Hp|exact Hq].
+    + intros X i Hi p q Hp Hq. apply in_seq in Hi. apply X; [exact Hp|exact Hq|lia].
+Qed.
